@@ -7,6 +7,7 @@ package main
 import (
 	"verif/harness/hv"
 
+	"github.com/bfenetworks/bfe/bfe_server"
 	"github.com/bfenetworks/bfe/bfe_tls"
 )
 
@@ -79,12 +80,30 @@ func impl(in hv.Val) hv.Val {
 	if hello.CacheKind == 2 {
 		hello.CVers, hello.CSuite, hello.CCerts = uint16(hv.AsInt(ck[1])), uint16(hv.AsInt(ck[2])), int(hv.AsInt(ck[3]))
 	}
-	r := bfe_tls.VerifC41Negotiate(cfg, hello)
-	if r.Err {
-		return hv.L{hv.I(0), hv.I(r.Alert)}
+	// the real serving path: Config -> HttpsListener -> n x UpdateSessionTicketKey (Config.Clone +
+	// UpdateListener) -> Accept -> readClientHello on the listener's live Config
+	config := bfe_tls.VerifC41BuildConfig(cfg, hello)
+	ln := bfe_server.NewHttpsListener(bfe_tls.VerifC41Listener{}, config)
+	reloads := int(hv.AsInt(c[15]))
+	for k := 0; k < reloads; k++ {
+		key := make([]byte, 48)
+		for j := range key {
+			key[j] = byte(17*k + j + 3)
+		}
+		ln.UpdateSessionTicketKey(key)
 	}
-	return hv.L{hv.I(1), hv.Bool(r.Resume), hv.I(int(r.Vers)), hv.I(int(r.Suite)), hv.S(r.Alpn), hv.Bool(r.Npn),
-		hv.LS(r.Protos)}
+	nc, err := bfe_server.VerifC41TlsListener(ln).Accept()
+	if err != nil {
+		panic(err)
+	}
+	conn := nc.(*bfe_tls.Conn)
+	diff := bfe_tls.VerifC41ConfigDiff(config, bfe_tls.VerifC41ConnConfig(conn))
+	r := bfe_tls.VerifC41NegotiateOn(conn, hello)
+	if r.Err {
+		return hv.L{hv.L{hv.I(0), hv.I(r.Alert)}, hv.LS(diff)}
+	}
+	return hv.L{hv.L{hv.I(1), hv.Bool(r.Resume), hv.I(int(r.Vers)), hv.I(int(r.Suite)), hv.S(r.Alpn), hv.Bool(r.Npn),
+		hv.LS(r.Protos)}, hv.LS(diff)}
 }
 
 // ---- generator ----
@@ -190,7 +209,7 @@ func genGrade(r *hv.Rng, i int) (string, hv.Val) {
 		ruleOpt = hv.L{hv.L{hv.S(grades[(i+1+r.Intn(4))%5]), hv.LS(nil), hv.Bool(false), hv.Bool(false)}}
 	}
 	cfg := hv.L{hv.I(minV), hv.I(maxV), hv.Bool(prefer), hv.L{}, hv.L{}, hv.LS(nil), hv.L{}, hv.Bool(poodle),
-		hv.Bool(false), hv.I(0), hv.Bool(false), ruleOpt, rules, hv.L{}, hv.I(0)}
+		hv.Bool(false), hv.I(0), hv.Bool(false), ruleOpt, rules, hv.L{}, hv.I(0), hv.I(pick(r, 0, 1, 2))}
 	var tk hv.Val = hv.L{hv.I(0)}
 	if r.Chance(1, 4) { // resumption must respect the grade as well
 		tk = hv.L{hv.I(2), hv.I(pick(r, v, v, 0x0300, 0x0301)), hv.I(suites[r.Intn(len(suites))]), hv.I(0)}
@@ -290,7 +309,7 @@ func gen(r *hv.Rng, i int, tier string) (string, hv.Val) {
 	ticketsDisabled := r.Chance(1, 6)
 	cfg := hv.L{hv.I(minV), hv.I(maxV), hv.Bool(prefer), suitesOpt, hv.LI(prio), hv.LS(protoList(r)), hv.LI(curves),
 		hv.Bool(r.Bool()), hv.Bool(ticketsDisabled), hv.I(r.Intn(5)), hv.Bool(r.Chance(1, 3)), ruleOpt, rules, certs,
-		hv.I(cacheMode)}
+		hv.I(cacheMode), hv.I(pick(r, 0, 0, 1, 1, 2, 3))}
 
 	// ---- hello
 	vers := versions[r.Intn(4)]
